@@ -78,6 +78,10 @@ type Ctx struct {
 	onnxInitMemo     *initState
 	readerMemo       map[*ssa.Function]readerRes
 	castMemo         *castTableRes
+	boolKernels      map[string]*ssa.Function
+	seqLensRefused   map[string]string
+	recProvMemo      map[string]recProvRes
+	gemmBatchBad     string
 	mutParamMemo     map[*ssa.Function]bool
 	convOuts         []convOut
 	convMemo         *recRes
